@@ -93,9 +93,12 @@ func (cache *Cache) BatchVerify(signature hotstuff.QuorumSignature, batch map[ho
 	hasher := sha256.New()
 	// then hash the messages in sorted order
 	for _, id := range ids {
+		// bind each message to its signer and delimit it, so that different batches cannot hash alike
+		_, _ = hasher.Write(id.ToBytes())
+		_, _ = hasher.Write(hotstuff.View(len(batch[id])).ToBytes())
 		_, _ = hasher.Write(batch[id])
 	}
-	hasher.Sum(hash[:])
+	hasher.Sum(hash[:0])
 
 	var key strings.Builder
 	_, _ = key.Write(hash[:])
